@@ -1,21 +1,15 @@
 /-
 C11 — selection operators return exactly the cells their predicate describes.
-Only property theorems live here (helper lemmas: `Lemmas/Select.lean`).
+Only property theorems, Spec bridges and non-vacuity witnesses live here (helper lemmas and
+auxiliary definitions: `Lemmas/Select.lean`, `Lemmas/SelectAux.lean`).
 -/
 import Bermuda.Model.Select
 import Bermuda.Spec.C11
 import Bermuda.Lemmas.Select
+import Bermuda.Lemmas.SelectAux
 import Bermuda.Properties.C01
 namespace Bermuda.Properties.C11
 open Bermuda Std Bermuda.Spec.C11
-
-/-- the triangle is in canonical form (what `Triangle(...)` always returns, C01): sorted and of
-one cell class -/
-def Canon (t : List Cell) : Prop :=
-  t.Pairwise (fun a b => Cell.le a b) ∧ kindsConsistent t = true
-
-theorem Canon.sublist {t s : List Cell} (ht : Canon t) (hs : s.Sublist t) : Canon s :=
-  ⟨ht.1.sublist hs, kindsConsistent_sublist_sel hs ht.2⟩
 
 /-! ### 1. clip -/
 
@@ -95,19 +89,6 @@ theorem filter_unchanged_sorted {t : List Cell} (ht : Canon t) (p : Cell → Boo
     Triangle.filterP t p = .ok (t.filter p) :=
   ofCells_sublist List.filter_sublist ht.1 ht.2
 
-theorem maskKeep_sublist (t : List Cell) (mask : List Bool) : (maskKeep t mask).Sublist t := by
-  unfold maskKeep
-  induction t generalizing mask with
-  | nil => simp
-  | cons c t ih =>
-    cases mask with
-    | nil => simp
-    | cons b mask =>
-      simp only [List.zip_cons_cons, List.filterMap_cons]
-      cases b
-      · simpa using (ih mask).cons c
-      · simpa using (ih mask).cons_cons c
-
 /-- the same for a predicate given extensionally (a mask over positions) -/
 theorem filterMask_unchanged_sorted {t : List Cell} (ht : Canon t) (mask : List Bool) :
     Triangle.filterMask t mask = .ok (maskKeep t mask) :=
@@ -150,21 +131,6 @@ theorem slices_partition {t : List Cell} (ht : Canon t) :
   · rw [List.flatMap_map]
     exact flatMap_filter_perm (fun c : Cell => c.md) t (metasOf t) hnd hcov
 
-theorem flatMap_congr_mem {α β} (l : List α) (f g : α → List β) (h : ∀ a ∈ l, f a = g a) :
-    l.flatMap f = l.flatMap g := by
-  induction l with
-  | nil => rfl
-  | cons a l ih =>
-    simp only [List.flatMap_cons, h a (by simp), ih (fun x hx => h x (by simp [hx]))]
-
-theorem mapM_ok_of_forall {α β} (f : α → Except Err β) (g : α → β) (l : List α)
-    (h : ∀ a ∈ l, f a = .ok (g a)) : l.mapM f = .ok (l.map g) := by
-  induction l with
-  | nil => rfl
-  | cons a l ih =>
-    rw [List.mapM_cons, h a (by simp), ih (fun x hx => h x (by simp [hx]))]
-    rfl
-
 /-- **split partitions the triangle by the values of the given detail keys**: distinct keys,
 each group exactly the cells with that key tuple in order (never empty), together a
 rearrangement of all cells -/
@@ -189,9 +155,6 @@ theorem split_partition {t : List Cell} (ht : Canon t) (keys : List String) :
     exact flatMap_filter_perm (splitKey keys) t _ inv.nodup inv.cov
 
 /-! ### 4. select -/
-
-theorem select_cmp (a b : Cell) (keys : List String) :
-    Cell.cmp (a.select keys) (b.select keys) = Cell.cmp a b := rfl
 
 /-- **select keeps every cell** (same number, same class and coordinates, same order) and
 restricts its values to the listed keys; nothing is reordered or refused on a canonical
@@ -251,115 +214,6 @@ theorem extractWith_length_order {α} (t : List Cell) (f : Cell → α) :
 
 /-! ### 6. `t[period, evaluation, metadata]` -/
 
-/-- the result of `__getitem__` as a function of the filtered cell list -/
-def itemResult (p e : DateIdx) (m : MetaIdx) (r : List Cell) : Except Err (List Cell ⊕ Cell) :=
-  if p.isSlice || e.isSlice || m.isSlice then .ok (.inl r)
-  else match r with
-    | [] => .error .indexError
-    | c :: _ => .ok (.inr c)
-
-theorem date_between_self (d x : Date) : (decide (d ≤ x) && decide (x ≤ d)) = (x == d) := by
-  by_cases h : x = d
-  · subst h; simp [Date.le_refl]
-  · have : ¬ (d ≤ x ∧ x ≤ d) := fun hh => h (Date.le_antisymm hh.2 hh.1)
-    have h' : (x == d) = false := by simpa using h
-    rw [h']
-    by_cases h1 : d ≤ x <;> by_cases h2 : x ≤ d <;> simp_all
-
-/-- what a period / evaluation index keeps -/
-def idxKeep : DateIdx → Date → Bool
-  | .scalar d, x => x == d
-  | .slice lo hi, x => inDates lo hi x
-  | .bad, _ => false
-
-def metaKeep : MetaIdx → Cell → Bool
-  | .is md, c => c.md == md
-  | .junk _, _ => false
-  | _, _ => true
-
-theorem itemKeep_eq (p e : DateIdx) (m : MetaIdx) (c : Cell) :
-    itemKeep p e m c = (metaKeep m c && idxKeep p c.ps && idxKeep e c.ev) := by
-  cases m <;> cases p <;> cases e <;> rfl
-
-theorem periodBounds_keep {p : DateIdx} {ps pe : Date} (h : p.periodBounds = .ok (ps, pe)) (x : Date)
-    (hx : Date.min ≤ x ∧ x ≤ Date.max) : (decide (ps ≤ x) && decide (x ≤ pe)) = idxKeep p x := by
-  cases p with
-  | scalar d =>
-    simp only [DateIdx.periodBounds, Except.ok.injEq, Prod.mk.injEq] at h
-    obtain ⟨rfl, rfl⟩ := h
-    exact date_between_self _ x
-  | slice lo hi =>
-    simp only [DateIdx.periodBounds, Except.ok.injEq, Prod.mk.injEq] at h
-    obtain ⟨rfl, rfl⟩ := h
-    cases lo <;> cases hi <;> simp [idxKeep, inDates, hx.1, hx.2]
-  | bad => cases h
-
-theorem evalBounds_keep {e : DateIdx} {es ee : Option Date} (h : e.evalBounds = .ok (es, ee)) (c : Cell) :
-    clipKeep { minEval := es, maxEval := ee } .month c = idxKeep e c.ev := by
-  cases e with
-  | scalar d =>
-    simp only [DateIdx.evalBounds, Except.ok.injEq, Prod.mk.injEq] at h
-    obtain ⟨rfl, rfl⟩ := h
-    simpa [clipKeep, inDates, inLags, idxKeep] using date_between_self d c.ev
-  | slice lo hi =>
-    simp only [DateIdx.evalBounds, Except.ok.injEq, Prod.mk.injEq] at h
-    obtain ⟨rfl, rfl⟩ := h
-    simp [clipKeep, inDates, inLags, idxKeep]
-  | bad => cases h
-
-/-- `__getitem__` after the metadata stage -/
-def tailPipe (filtered : List Cell) (p e : DateIdx) (m : MetaIdx) : Except Err (List Cell ⊕ Cell) := do
-  let (ps, pe) ← p.periodBounds
-  let filtered ← Triangle.filterP filtered (fun c => ps ≤ c.ps && c.ps ≤ pe)
-  let (es, ee) ← e.evalBounds
-  let clipped ← Triangle.clipFull filtered { minEval := es, maxEval := ee }
-  if p.isSlice || e.isSlice || m.isSlice then
-    return .inl clipped
-  else
-    match clipped with
-    | [] => throw .indexError
-    | c :: _ => return .inr c
-
-theorem getItem_unfold (t : List Cell) (p e : DateIdx) (m : MetaIdx) :
-    Triangle.getItem t p e m =
-      (match m with
-        | .is md => Triangle.filterP t (fun c => c.md == md)
-        | .junk _ => Triangle.filterP t (fun _ => false)
-        | _ => pure t) >>= fun f => tailPipe f p e m := by
-  unfold Triangle.getItem tailPipe
-  cases m <;> rfl
-
-theorem tailPipe_eq {f : List Cell} (hf : Canon f) (hr : ∀ c ∈ f, Date.min ≤ c.ps ∧ c.ps ≤ Date.max)
-    (p e : DateIdx) (m : MetaIdx) (hp : p ≠ .bad) (he : e ≠ .bad) :
-    tailPipe f p e m = itemResult p e m (f.filter (fun c => idxKeep p c.ps && idxKeep e c.ev)) := by
-  obtain ⟨ps, pe, hpb⟩ : ∃ ps pe, p.periodBounds = .ok (ps, pe) := by
-    cases p with
-    | scalar d => exact ⟨d, d, rfl⟩
-    | slice s e => exact ⟨_, _, rfl⟩
-    | bad => exact absurd rfl hp
-  obtain ⟨es, ee, heb⟩ : ∃ es ee, e.evalBounds = .ok (es, ee) := by
-    cases e with
-    | scalar d => exact ⟨some d, some d, rfl⟩
-    | slice s e => exact ⟨_, _, rfl⟩
-    | bad => exact absurd rfl he
-  have c2 : Canon (f.filter (fun c => decide (ps ≤ c.ps) && decide (c.ps ≤ pe))) :=
-    hf.sublist List.filter_sublist
-  have key : f.filter (fun c => idxKeep p c.ps && idxKeep e c.ev) =
-      ((f.filter (fun c => decide (ps ≤ c.ps) && decide (c.ps ≤ pe))).filter
-        (clipKeep { minEval := es, maxEval := ee } .month)) := by
-    rw [List.filter_filter]
-    apply List.filter_congr
-    intro c hc
-    rw [periodBounds_keep hpb c.ps (hr c hc), evalBounds_keep heb c]
-    simp [Bool.and_comm]
-  unfold tailPipe
-  simp only [hpb, heb, bind, Except.bind, filter_unchanged_sorted hf,
-    clip_exact c2 { minEval := es, maxEval := ee } .month rfl, ← key]
-  unfold itemResult
-  split
-  · rfl
-  · cases f.filter (fun c => idxKeep p c.ps && idxKeep e c.ev) <;> rfl
-
 /-- **indexing equals the corresponding filter**: for date or slice indices,
 `t[period, evaluation, metadata]` is the filter by `itemKeep` (period start within the period
 index, evaluation date within the evaluation index, metadata equal to the metadata index — all
@@ -380,16 +234,7 @@ theorem getItem_eq_filter {t : List Cell} (ht : Canon t)
   have hf : Canon (t.filter (metaKeep m)) := ht.sublist List.filter_sublist
   have hr' : ∀ c ∈ t.filter (metaKeep m), Date.min ≤ c.ps ∧ c.ps ≤ Date.max :=
     fun c hc => hr c (List.mem_filter.mp hc).1
-  have h1 : (match m with
-      | .is md => Triangle.filterP t (fun c => c.md == md)
-      | .junk _ => Triangle.filterP t (fun _ => false)
-      | _ => (pure t : Except Err (List Cell))) = .ok (t.filter (metaKeep m)) := by
-    cases m with
-    | is md => exact filter_unchanged_sorted ht _
-    | junk b => exact filter_unchanged_sorted ht _
-    | none => exact congrArg Except.ok (List.filter_eq_self.mpr (fun _ _ => rfl)).symm
-    | all => exact congrArg Except.ok (List.filter_eq_self.mpr (fun _ _ => rfl)).symm
-  rw [h1, hk]
+  rw [metaStage_canon ht m, hk]
   exact tailPipe_eq hf hr' p e m hp he
 
 /-- a non-date, non-slice period or evaluation index is refused -/
@@ -398,15 +243,6 @@ theorem getItem_bad_period (t : List Cell) (e : DateIdx) :
 
 /-! ### 7. right_edge -/
 
-/-- the list `right_edge` hands to the constructor: per slice, per period, the last cell by
-evaluation date -/
-def rightEdgeRows (t : List Cell) : List Cell :=
-  (Triangle.slices t).flatMap fun p =>
-    (groupBy (fun c : Cell => (c.ps, c.pe)) p.2).filterMap fun q =>
-      lastBy? (fun a b => Date.cmp a.ev b.ev != .gt) q.2
-
-theorem rightEdge_eq (t : List Cell) : Triangle.rightEdge t = Triangle.ofCells (rightEdgeRows t) := rfl
-
 /-- every cell of `right_edge` is a cell of the triangle and the result is in canonical
 order. The full statement is `rightEdge_spec` below. -/
 theorem rightEdge_subset_sorted {t r : List Cell} (h : Triangle.rightEdge t = .ok r) :
@@ -414,31 +250,6 @@ theorem rightEdge_subset_sorted {t r : List Cell} (h : Triangle.rightEdge t = .o
   rw [rightEdge_eq] at h
   refine ⟨fun c hc => ?_, Properties.C01.ofCells_sorted h⟩
   exact mem_rightEdge_rows ((Properties.C01.ofCells_perm h).mem_iff.mp hc)
-
-/-- comparison of cells by evaluation date, as used for the rows of `right_edge` -/
-def evCmp : Cell → Cell → Ordering := cmpOn (·.ev) Date.cmp
-
-instance : TransCmp evCmp := by unfold evCmp; infer_instance
-
-theorem rows_eq (t : List Cell) (ht : Canon t) :
-    rightEdgeRows t = (metasOf t).flatMap fun m =>
-      (groupBy (fun c : Cell => (c.ps, c.pe)) (t.filter (fun c => c.md == m))).filterMap fun q =>
-        lastBy? (leOf evCmp) q.2 := by
-  unfold rightEdgeRows
-  rw [slices_eq ht, List.flatMap_map]
-  rfl
-
-theorem sameRow_iff (a b : Cell) : sameRow a b = true ↔ a.md = b.md ∧ (a.ps, a.pe) = (b.ps, b.pe) := by
-  simp [sameRow, and_assoc]
-
-theorem mem_rows {t : List Cell} (ht : Canon t) {c : Cell} (hc : c ∈ rightEdgeRows t) :
-    ∃ m ∈ metasOf t, ∃ q ∈ groupBy (fun c : Cell => (c.ps, c.pe)) (t.filter (fun c => c.md == m)),
-      lastBy? (leOf evCmp) q.2 = some c ∧
-      q.2 = (t.filter (fun c => c.md == m)).filter (fun c => (c.ps, c.pe) == q.1) := by
-  rw [rows_eq t ht] at hc
-  obtain ⟨m, hm, hc⟩ := List.mem_flatMap.mp hc
-  obtain ⟨q, hq, hl⟩ := List.mem_filterMap.mp hc
-  exact ⟨m, hm, q, hq, hl, ((groupBy_inv_sel _ _).grp q hq).1⟩
 
 /-- **right_edge holds, for each slice and period, exactly the cell with the latest evaluation
 date**: every kept cell is a cell of the triangle whose evaluation date is maximal in its
@@ -543,14 +354,6 @@ def exT : List Cell :=
     { ps := ⟨2020, 1, 1⟩, pe := ⟨2020, 12, 31⟩, ev := ⟨2021, 12, 31⟩, values := [("paid_loss", .int 2)] },
     { ps := ⟨2021, 1, 1⟩, pe := ⟨2021, 12, 31⟩, ev := ⟨2021, 12, 31⟩, values := [("paid_loss", .int 3)] } ]
 
-theorem le_of_same_md {a b : Cell} (hm : a.md = b.md)
-    (h : (compareLex (cmpOn (·.ps) Date.cmp) (compareLex (cmpOn (·.pe) Date.cmp)
-      (compareLex (cmpOn (·.ev) Date.cmp) (cmpOn (·.prev) optDateCmp)))) a b ≠ .gt) :
-    Cell.le a b = true := by
-  unfold Cell.le Cell.cmp
-  simp only [compareLex, cmpOn, hm, ReflCmp.compare_self (cmp := Metadata.cmp), Ordering.eq_then]
-  simpa [compareLex, cmpOn] using h
-
 theorem exT_canon : Canon exT := by
   refine ⟨?_, by decide⟩
   simp only [exT, List.pairwise_cons, List.mem_cons, List.not_mem_nil, or_false, forall_eq_or_imp,
@@ -568,59 +371,6 @@ example : ∃ lo hi, Triangle.clipFull exT { maxEval := some ⟨2020, 12, 31⟩ 
   clip_complement_partition exT_canon ⟨2020, 12, 31⟩ (by decide) (by decide)
 
 /-! ### 8. `TriangleSlice(cells)` -/
-
-theorem singleSlice_iff (t : List Cell) :
-    singleSlice t = true ↔ ∀ a ∈ t, ∀ b ∈ t, a.md = b.md := by
-  cases t with
-  | nil => simp [singleSlice]
-  | cons c rest =>
-    simp only [singleSlice, List.all_eq_true, beq_iff_eq, List.mem_cons, forall_eq_or_imp]
-    constructor
-    · intro h
-      refine ⟨⟨trivial, fun b hb => (h b hb).symm⟩, fun a ha => ⟨h a ha, fun b hb => (h a ha).trans (h b hb).symm⟩⟩
-    · intro h b hb
-      exact (h.2 b hb).1
-
-theorem singleSlice_perm {a b : List Cell} (h : a.Perm b) : singleSlice a = singleSlice b := by
-  rw [Bool.eq_iff_iff, singleSlice_iff, singleSlice_iff]
-  constructor
-  · intro H x hx y hy; exact H x (h.mem_iff.mpr hx) y (h.mem_iff.mpr hy)
-  · intro H x hx y hy; exact H x (h.mem_iff.mp hx) y (h.mem_iff.mp hy)
-
-theorem singleSlice_sublist {s t : List Cell} (hs : s.Sublist t) (h : singleSlice t = true) :
-    singleSlice s = true := by
-  rw [singleSlice_iff] at *
-  exact fun a ha b hb => h a (hs.subset ha) b (hs.subset hb)
-
-theorem slices_length (t : List Cell) : (Triangle.slices t).length = (metasOf t).length := by
-  simp [Triangle.slices]
-
-/-- the number of slices exceeds one exactly when two cells differ in metadata -/
-theorem metasOf_length_le_one_iff (t : List Cell) :
-    (metasOf t).length ≤ 1 ↔ singleSlice t = true := by
-  obtain ⟨hnd, hmem, hcov⟩ := metasOf_spec t
-  rw [singleSlice_iff]
-  constructor
-  · intro h a ha b hb
-    have h1 := hcov a ha
-    have h2 := hcov b hb
-    match hm : metasOf t, h, h1, h2 with
-    | [], _, h1, _ => simp at h1
-    | [x], _, h1, h2 =>
-      simp only [List.mem_singleton] at h1 h2
-      exact h1.trans h2.symm
-    | _ :: _ :: _, h, _, _ => simp at h
-  · intro h
-    match hm : metasOf t with
-    | [] => simp
-    | [x] => simp
-    | x :: y :: rest =>
-      exfalso
-      rw [hm] at hnd hmem
-      obtain ⟨a, ha, ea⟩ := hmem x (by simp)
-      obtain ⟨b, hb, eb⟩ := hmem y (by simp)
-      have : x = y := by rw [← ea, ← eb]; exact h a ha b hb
-      simp [this] at hnd
 
 /-- **`TriangleSlice(cells)` accepts exactly the class-consistent cell sequences with a single
 metadata** and then holds the cells in canonical order (as `Triangle(cells)`); anything else is
@@ -697,21 +447,6 @@ def sliceResult (p e : DateIdx) (r : List Cell) : Except Err (List Cell ⊕ Cell
   else match r with
     | [] => .error .indexError
     | c :: _ => .ok (.inr c)
-
-theorem within_eq_idxKeep : within = idxKeep := by
-  funext i x; cases i <;> rfl
-
-theorem bounds_of_ne_bad {p e : DateIdx} (hp : p ≠ .bad) (he : e ≠ .bad) :
-    (∃ ps pe, p.periodBounds = .ok (ps, pe)) ∧ (∃ es ee, e.evalBounds = .ok (es, ee)) := by
-  constructor
-  · cases p with
-    | scalar d => exact ⟨d, d, rfl⟩
-    | slice s e => exact ⟨_, _, rfl⟩
-    | bad => exact absurd rfl hp
-  · cases e with
-    | scalar d => exact ⟨some d, some d, rfl⟩
-    | slice s e => exact ⟨_, _, rfl⟩
-    | bad => exact absurd rfl he
 
 /-- **indexing a slice equals the corresponding filter**: `slice[period, evaluation]` is exactly
 the cells whose period START lies within the period index and whose evaluation date lies within the
@@ -874,14 +609,6 @@ theorem getItemAny_int_err {t : List Cell} {i : Int} {e : Err}
 theorem sliceGetItemAny_int (t : List Cell) (i : Int) :
     TriangleSlice.getItemAny t (.int i) = Triangle.getItemAny t (.int i) := rfl
 
-theorem pySlice_eq_clamp {α} (l : List α) (i j : Option Int) :
-    pySlice l i j = (l.take (clampPos l.length j l.length)).drop (clampPos l.length i 0) := by
-  have hn : ∀ (x : Int) (d : Nat),
-      (if x < 0 then max 0 (x + (l.length : Int)) else min x l.length).toNat =
-        clampPos l.length (some x) d := by
-    intro x d; simp only [clampPos]; split <;> omega
-  cases i <;> cases j <;> simp only [pySlice, hn _ 0] <;> simp [clampPos]
-
 theorem posSliceSpec_pySlice (t : List Cell) (i j : Option Int) :
     posSliceSpec t i j (.inl (pySlice t i j)) = true := by
   have hle : clampPos t.length j t.length ≤ t.length := by
@@ -947,12 +674,6 @@ theorem getItemAny_noLen (t : List Cell) :
     Triangle.getItemAny t .noLen = .error .typeError ∧
     TriangleSlice.getItemAny t .noLen = .error .typeError := ⟨rfl, rfl⟩
 
-/-- a component that is neither a date nor a slice (a `Metadata`, `None`, a string …) in the
-period or evaluation position is refused -/
-theorem toDateIdx_bad_iff (x : IdxVal) :
-    x.toDateIdx = .bad ↔ (∀ d, x ≠ .date d) ∧ (∀ s e, x ≠ .slice s e) := by
-  cases x <;> simp [IdxVal.toDateIdx]
-
 /-- **`t[period, evaluation, metadata]` with arbitrary components** equals the filter: the
 metadata component keeps everything when falsy or `:`, the cells of that metadata when it is a
 `Metadata`, nothing when it is any other object; a triangle comes back when some component is a
@@ -992,15 +713,6 @@ theorem slice_roundtrip {t : List Cell} (ht : Canon t) (h1 : singleSlice t = tru
 
 /-! ### 11. `is_right_edge_ragged` -/
 
-theorem kindsConsistent_of_subset {s l : List Cell} (hs : ∀ c ∈ s, c ∈ l)
-    (hk : kindsConsistent l = true) : kindsConsistent s = true := by
-  unfold kindsConsistent at *
-  simp only [Bool.or_eq_true, List.all_eq_true] at *
-  rcases hk with (hk | hk) | hk
-  · exact Or.inl (Or.inl fun c hc => hk c (hs c hc))
-  · exact Or.inl (Or.inr fun c hc => hk c (hs c hc))
-  · exact Or.inr fun c hc => hk c (hs c hc)
-
 /-- `right_edge` never refuses a canonical triangle -/
 theorem rightEdge_ok {s : List Cell} (hs : Canon s) : ∃ r, Triangle.rightEdge s = .ok r := by
   rw [rightEdge_eq]
@@ -1008,87 +720,6 @@ theorem rightEdge_ok {s : List Cell} (hs : Canon s) : ∃ r, Triangle.rightEdge 
   have : kindsConsistent (rightEdgeRows s) = true :=
     kindsConsistent_of_subset (fun c hc => mem_rightEdge_rows hc) hs.2
   simp [this]
-
-theorem dedupFold_inv {α} [BEq α] [LawfulBEq α] (l acc : List α) (h : acc.Nodup) :
-    (l.foldl (fun acc x => if acc.contains x then acc else acc ++ [x]) acc).Nodup ∧
-    ∀ x, x ∈ l.foldl (fun acc x => if acc.contains x then acc else acc ++ [x]) acc ↔ x ∈ acc ∨ x ∈ l := by
-  induction l generalizing acc with
-  | nil => simp [h]
-  | cons a l ih =>
-    simp only [List.foldl_cons]
-    by_cases hc : acc.contains a = true
-    · have ha : a ∈ acc := by simpa using hc
-      simp only [hc, if_true]
-      refine ⟨(ih acc h).1, fun x => ?_⟩
-      rw [(ih acc h).2 x]
-      constructor
-      · rintro (h | h)
-        · exact Or.inl h
-        · exact Or.inr (List.mem_cons_of_mem _ h)
-      · rintro (h | h)
-        · exact Or.inl h
-        · rcases List.mem_cons.mp h with rfl | h
-          · exact Or.inl ha
-          · exact Or.inr h
-    · have ha : a ∉ acc := by simpa using hc
-      have hn : (acc ++ [a]).Nodup := by
-        rw [List.nodup_append]
-        refine ⟨h, by simp, ?_⟩
-        intro x hx y hy
-        simp at hy; subst hy
-        intro e; exact ha (e ▸ hx)
-      simp only [hc, Bool.false_eq_true, if_false]
-      refine ⟨(ih _ hn).1, fun x => ?_⟩
-      rw [(ih _ hn).2 x]
-      simp only [List.mem_append, List.mem_cons, List.not_mem_nil, or_false]
-      constructor
-      · rintro ((h | h) | h)
-        · exact Or.inl h
-        · exact Or.inr (Or.inl h)
-        · exact Or.inr (Or.inr h)
-      · rintro (h | h | h)
-        · exact Or.inl (Or.inl h)
-        · exact Or.inl (Or.inr h)
-        · exact Or.inr h
-
-/-- `len(set(xs)) > 1` exactly when two entries differ -/
-theorem distinctCount_gt_one_iff {α} [BEq α] [LawfulBEq α] (xs : List α) :
-    1 < distinctCount xs ↔ ∃ a ∈ xs, ∃ b ∈ xs, a ≠ b := by
-  obtain ⟨hnd, hmem⟩ := dedupFold_inv xs [] (by simp)
-  unfold distinctCount
-  generalize xs.foldl (fun acc x => if acc.contains x then acc else acc ++ [x]) [] = r at hnd hmem
-  simp only [List.not_mem_nil, false_or] at hmem
-  constructor
-  · intro h
-    match r, hnd, hmem, h with
-    | x :: y :: rest, hnd, hmem, _ =>
-      refine ⟨x, (hmem x).mp (by simp), y, (hmem y).mp (by simp), ?_⟩
-      intro e; subst e; simp at hnd
-  · rintro ⟨a, ha, b, hb, hne⟩
-    match r, hnd, hmem with
-    | [], _, hmem => exact absurd ((hmem a).mpr ha) (by simp)
-    | [x], _, hmem =>
-      have h1 := (hmem a).mpr ha
-      have h2 := (hmem b).mpr hb
-      simp only [List.mem_singleton] at h1 h2
-      exact absurd (h1.trans h2.symm) hne
-    | _ :: _ :: _, _, _ => simp
-
-theorem raggedIn_eq (l : List (Metadata × List Cell)) (f : List Cell → List Cell)
-    (h : ∀ p ∈ l, Triangle.rightEdge p.2 = .ok (f p.2)) :
-    raggedIn l = .ok (l.any fun p => decide (1 < distinctCount ((f p.2).map (·.ev)))) := by
-  induction l with
-  | nil => rfl
-  | cons p l ih =>
-    obtain ⟨m, slc⟩ := p
-    have h0 := h (m, slc) (by simp)
-    simp only [] at h0
-    simp only [raggedIn, h0, bind, Except.bind, List.any_cons]
-    by_cases hd : 1 < distinctCount ((f slc).map (·.ev))
-    · simp [hd, pure, Except.pure]
-    · have : ¬ distinctCount ((f slc).map (·.ev)) > 1 := hd
-      simp only [this, if_false, decide_false, Bool.false_or]
-      exact ih (fun p hp => h p (by simp [hp]))
 
 /-- a cell is the latest of its (slice, period) row -/
 def latestIn (t : List Cell) (c : Cell) : Prop := ∀ c' ∈ t, sameRow c c' = true → c'.ev ≤ c.ev
@@ -1201,5 +832,285 @@ example : TriangleSlice.ofCells (exT ++ [{ exT[0] with md := { country := some "
     .error .triangleError :=
   sliceOfCells_multi (a := exT[0]) (b := { exT[0] with md := { country := some "US" } })
     (by simp) (by simp) (by decide)
+
+
+/-! ### 12. complementary clip / filter pairs -/
+
+/-- **a clip and the filter by the negation of its documented predicate partition the triangle**,
+whatever subset of the six bounds is given -/
+theorem clip_filter_complement_partition {t : List Cell} (ht : Canon t) (a : ClipFull) (u : LagUnit)
+    (hu : a.unit = some u) :
+    ∃ lo hi, Triangle.clipFull t a = .ok lo ∧
+      Triangle.filterP t (fun c => !clipKeep a u c) = .ok hi ∧
+      (lo ++ hi).Perm t ∧ lo.length + hi.length = t.length := by
+  refine ⟨_, _, clip_exact ht a u hu, filter_unchanged_sorted ht _, ?_⟩
+  have hp := List.filter_append_perm (clipKeep a u) t
+  exact ⟨hp, by simpa using hp.length_eq⟩
+
+/-- the same with the complement given by any predicate that agrees with the negation on `t` -/
+theorem clip_complement_of_agree {t : List Cell} (ht : Canon t) (a : ClipFull) (u : LagUnit)
+    (hu : a.unit = some u) (q : Cell → Bool) (hq : ∀ c ∈ t, q c = !clipKeep a u c) :
+    ∃ lo hi, Triangle.clipFull t a = .ok lo ∧ Triangle.filterP t q = .ok hi ∧
+      (lo ++ hi).Perm t ∧ lo.length + hi.length = t.length := by
+  obtain ⟨lo, hi, h1, h2, h3, h4⟩ := clip_filter_complement_partition ht a u hu
+  refine ⟨lo, hi, h1, ?_, h3, h4⟩
+  rw [filter_unchanged_sorted ht] at h2 ⊢
+  rw [← h2]
+  congr 1
+  exact List.filter_congr hq
+
+/-- `clip(min_dev = b)` and `filter(dev_lag < b)` partition the triangle — any unit, any bound
+(whole or fractional number of months, days) -/
+theorem clip_minDev_complement {t : List Cell} (ht : Canon t) (b : Rat) (u : LagUnit) :
+    ∃ lo hi, Triangle.clipFull t { minDev := some b, unit := some u } = .ok lo ∧
+      Triangle.filterP t (fun c => decide (c.devLag u < b)) = .ok hi ∧
+      (lo ++ hi).Perm t ∧ lo.length + hi.length = t.length := by
+  apply clip_complement_of_agree ht _ u rfl
+  intro c _
+  simp [clipKeep, inDates, inLags, ← Rat.not_le]
+
+/-- `clip(max_dev = b)` and `filter(dev_lag > b)` partition the triangle -/
+theorem clip_maxDev_complement {t : List Cell} (ht : Canon t) (b : Rat) (u : LagUnit) :
+    ∃ lo hi, Triangle.clipFull t { maxDev := some b, unit := some u } = .ok lo ∧
+      Triangle.filterP t (fun c => decide (b < c.devLag u)) = .ok hi ∧
+      (lo ++ hi).Perm t ∧ lo.length + hi.length = t.length := by
+  apply clip_complement_of_agree ht _ u rfl
+  intro c _
+  simp [clipKeep, inDates, inLags, ← Rat.not_le]
+
+/-- `clip(min_period = b)` and `filter(period_start < b)` partition the triangle -/
+theorem clip_minPeriod_complement {t : List Cell} (ht : Canon t) (b : Date) :
+    ∃ lo hi, Triangle.clipFull t { minPeriod := some b } = .ok lo ∧
+      Triangle.filterP t (fun c => decide (c.ps < b)) = .ok hi ∧
+      (lo ++ hi).Perm t ∧ lo.length + hi.length = t.length := by
+  apply clip_complement_of_agree ht _ .month rfl
+  intro c _
+  simp [clipKeep, inDates, inLags, ← Date.not_le]
+
+/-- `clip(max_period = b)` and `filter(period_end > b)` partition the triangle -/
+theorem clip_maxPeriod_complement {t : List Cell} (ht : Canon t) (b : Date) :
+    ∃ lo hi, Triangle.clipFull t { maxPeriod := some b } = .ok lo ∧
+      Triangle.filterP t (fun c => decide (b < c.pe)) = .ok hi ∧
+      (lo ++ hi).Perm t ∧ lo.length + hi.length = t.length := by
+  apply clip_complement_of_agree ht _ .month rfl
+  intro c _
+  simp [clipKeep, inDates, inLags, ← Date.not_le]
+
+/-- **`clip(max_dev = n)` and `clip(min_dev = n + 1)` partition the triangle when every lag is a
+whole number** (in the given unit) -/
+theorem clip_wholeLag_complement_partition {t : List Cell} (ht : Canon t) (n : Int) (u : LagUnit)
+    (hw : ∀ c ∈ t, ∃ z : Int, c.devLag u = (z : Rat)) :
+    ∃ lo hi, Triangle.clipFull t { maxDev := some (n : Rat), unit := some u } = .ok lo ∧
+      Triangle.clipFull t { minDev := some ((n + 1 : Int) : Rat), unit := some u } = .ok hi ∧
+      (lo ++ hi).Perm t ∧ lo.length + hi.length = t.length := by
+  refine ⟨_, _, clip_exact ht _ u rfl, clip_exact ht _ u rfl, ?_⟩
+  have h1 : t.filter (clipKeep { maxDev := some (n : Rat), unit := some u } u) =
+      t.filter (fun c => decide (c.devLag u ≤ (n : Rat))) := by
+    apply List.filter_congr; intro c _; simp [clipKeep, inDates, inLags]
+  have h2 : t.filter (clipKeep { minDev := some ((n + 1 : Int) : Rat), unit := some u } u) =
+      t.filter (fun c => !decide (c.devLag u ≤ (n : Rat))) := by
+    apply List.filter_congr; intro c hc
+    obtain ⟨z, hz⟩ := hw c hc
+    simp only [clipKeep, inDates, inLags, Option.all_none, Option.all_some, Bool.and_true, Bool.true_and, hz]
+    have e1 : ((z : Rat) ≤ (n : Rat)) ↔ z ≤ n := Rat.intCast_le_intCast
+    have e2 : (((n + 1 : Int) : Rat) ≤ (z : Rat)) ↔ n + 1 ≤ z := Rat.intCast_le_intCast
+    simp only [e1, e2]
+    by_cases h : z ≤ n
+    · have : ¬ (n + 1 ≤ z) := by omega
+      simp only [h, this, decide_true, decide_false, Bool.not_true]
+    · have : n + 1 ≤ z := by omega
+      simp only [h, this, decide_true, decide_false, Bool.not_false]
+  rw [h1, h2]
+  have hp := List.filter_append_perm (fun c : Cell => decide (c.devLag u ≤ (n : Rat))) t
+  exact ⟨hp, by simpa using hp.length_eq⟩
+
+/-- day and timedelta lags are whole numbers of days, so `clip(max_dev = n)` and
+`clip(min_dev = n + 1)` always partition the triangle in these units -/
+theorem clip_dayLag_complement_partition {t : List Cell} (ht : Canon t) (n : Int) (u : LagUnit)
+    (hu : u = .day ∨ u = .timedelta) :
+    ∃ lo hi, Triangle.clipFull t { maxDev := some (n : Rat), unit := some u } = .ok lo ∧
+      Triangle.clipFull t { minDev := some ((n + 1 : Int) : Rat), unit := some u } = .ok hi ∧
+      (lo ++ hi).Perm t ∧ lo.length + hi.length = t.length := by
+  apply clip_wholeLag_complement_partition ht n u
+  intro c _
+  rcases hu with rfl | rfl <;> exact ⟨_, rfl⟩
+
+/-! ### 13. the executable Spec predicates hold of the model's output -/
+
+theorem partitions_of_perm {t a b : List Cell} (h : (a ++ b).Perm t) : partitions t a b = true := by
+  have := h.length_eq
+  simp only [List.length_append] at this
+  simp [partitions, this, List.isPerm_iff, h]
+
+/-- `partitions` holds of every complementary pair of the model -/
+theorem spec_partitions {t : List Cell} (ht : Canon t) (a : ClipFull) (u : LagUnit)
+    (hu : a.unit = some u) {lo hi : List Cell} (h1 : Triangle.clipFull t a = .ok lo)
+    (h2 : Triangle.filterP t (fun c => !clipKeep a u c) = .ok hi) : partitions t lo hi = true := by
+  obtain ⟨lo', hi', e1, e2, hp, _⟩ := clip_filter_complement_partition ht a u hu
+  rw [e1] at h1; rw [e2] at h2
+  cases h1; cases h2
+  exact partitions_of_perm hp
+
+theorem spec_partitions_filter {t : List Cell} (ht : Canon t) (p : Cell → Bool) {a b : List Cell}
+    (h1 : Triangle.filterP t p = .ok a) (h2 : Triangle.filterP t (fun c => !p c) = .ok b) :
+    partitions t a b = true := by
+  obtain ⟨a', b', e1, e2, hp, _⟩ := filter_complement_partition ht p
+  rw [e1] at h1; rw [e2] at h2
+  cases h1; cases h2
+  exact partitions_of_perm hp
+
+/-- `slicesSpec` holds of `Triangle.slices` -/
+theorem spec_slicesSpec {t : List Cell} (ht : Canon t) : slicesSpec t (Triangle.slices t) = true := by
+  obtain ⟨hnd, hgrp, hperm⟩ := slices_partition ht
+  simp only [slicesSpec, Bool.and_eq_true, nodupB_iff, List.all_eq_true, beq_iff_eq, exactly,
+    Bool.not_eq_true', sum_length_eq]
+  refine ⟨⟨hnd, fun p hp => ?_⟩, hperm.length_eq⟩
+  obtain ⟨h1, h2⟩ := hgrp p hp
+  refine ⟨?_, h1⟩
+  cases hp2 : p.2 with
+  | nil => exact absurd hp2 h2
+  | cons _ _ => rfl
+
+/-- `splitSpec` holds of `split` -/
+theorem spec_splitSpec {t : List Cell} (ht : Canon t) (keys : List String) :
+    ∃ gs, Triangle.split t keys = .ok gs ∧ splitSpec t keys gs = true := by
+  obtain ⟨gs, hs, hnd, hgrp, hperm⟩ := split_partition ht keys
+  refine ⟨gs, hs, ?_⟩
+  simp only [splitSpec, Bool.and_eq_true, nodupB_iff, List.all_eq_true, beq_iff_eq, exactly,
+    Bool.not_eq_true', sum_length_eq, detailKey_eq_splitKey]
+  refine ⟨⟨hnd, fun p hp => ?_⟩, hperm.length_eq⟩
+  obtain ⟨h1, h2⟩ := hgrp p hp
+  refine ⟨?_, h1⟩
+  cases hp2 : p.2 with
+  | nil => exact absurd hp2 h2
+  | cons _ _ => rfl
+
+/-- `rightEdgeSpec` holds of `right_edge` -/
+theorem spec_rightEdgeSpec {t r : List Cell} (ht : Canon t) (h : Triangle.rightEdge t = .ok r) :
+    rightEdgeSpec t r = true := by
+  obtain ⟨h1, h2, h3⟩ := rightEdge_spec ht h
+  obtain ⟨_, hsorted⟩ := rightEdge_subset_sorted h
+  have hsymm : ∀ a b : Cell, sameRow a b = true → sameRow b a = true := by
+    intro a b hab
+    have := (sameRow_iff _ _).mp hab
+    exact (sameRow_iff _ _).mpr ⟨this.1.symm, this.2.symm⟩
+  have htrans : ∀ a b c : Cell, sameRow a b = true → sameRow a c = true → sameRow b c = true := by
+    intro a b c hab hac
+    have x := (sameRow_iff _ _).mp hab
+    have y := (sameRow_iff _ _).mp hac
+    exact (sameRow_iff _ _).mpr ⟨x.1.symm.trans y.1, x.2.symm.trans y.2⟩
+  simp only [rightEdgeSpec, Bool.and_eq_true, List.all_eq_true, List.contains_iff_mem, beq_iff_eq,
+    Bool.or_eq_true, Bool.not_eq_true', decide_eq_true_eq]
+  refine ⟨⟨fun c hc => ⟨(h1 c hc).1, fun c' hc' => ?_⟩, fun c hc => ?_⟩,
+    Properties.C01.chainB_of_pairwise hsorted⟩
+  · cases hrow : sameRow c c' with
+    | false => exact Or.inl rfl
+    | true => exact Or.inr ((h1 c hc).2 c' hc' hrow)
+  · apply countP_eq_one
+    · obtain ⟨c', hc', hrow⟩ := h2 c hc
+      exact ⟨c', hc', hsymm _ _ hrow⟩
+    · refine h3.imp ?_
+      intro a b hab ⟨ha, hb⟩
+      rw [htrans c a b ha hb] at hab
+      cases hab
+
+/-- `extractSpec` holds of `extract` -/
+theorem spec_extractSpec (t : List Cell) (f : String) :
+    extractSpec t f (Triangle.extract t f) = true := by
+  simp only [extractSpec, Triangle.extract, List.length_map, beq_self_eq_true, Bool.true_and]
+  induction t with
+  | nil => rfl
+  | cons c t ih =>
+    simp only [List.map_cons, List.zip_cons_cons, List.all_cons, ih, Bool.and_true]
+    unfold Dict.get?
+    cases c.values.find? (fun kv => kv.1 == f) <;> simp
+
+/-! ### 14. behaviour the words leave open, fixed as statements -/
+
+/-- a detail key that is missing and one that holds `None` land in the same `split` group -/
+theorem splitKey_missing_eq_none (k : String) (a b : Cell)
+    (ha : a.md.details.get? k = none) (hb : b.md.details.get? k = some .none) :
+    splitKey [k] a = splitKey [k] b := by
+  simp [splitKey, ha, hb]
+
+/-- a date as period index matches the period START only (the period end is not constrained), a
+date as evaluation index the evaluation date -/
+theorem itemKeep_scalar (d d' : Date) (c : Cell) :
+    itemKeep (.scalar d) (.scalar d') .none c = (c.ps == d && c.ev == d') := by
+  simp [itemKeep]
+
+end Bermuda.Properties.C11
+namespace Bermuda.Properties.C11
+open Bermuda Std Bermuda.Spec.C11
+
+def mdAuto : Metadata := { country := some "US", limit := some 100, details := [("line", .str "auto")] }
+def mdHome : Metadata :=
+  { country := some "US", limit := some 250, details := [("line", .str "home"), ("state", .none)] }
+
+theorem mdAuto_lt_mdHome : Metadata.cmp mdAuto mdHome = .lt := by
+  have h : ∀ x : Option String, optStrCmp x x = .eq := fun x => ReflCmp.compare_self (cmp := optStrCmp)
+  simp only [Metadata.cmp, compareLex, cmpOn, mdAuto, mdHome, h, Ordering.eq_then]
+  have : limCmp (some 100) (some 250) = .lt := by decide +kernel
+  rw [this]; rfl
+
+/-- two slices (a detail key `line`, one of them with a `state` key holding `None`), cumulative
+cells, ragged: the two periods of `auto` end on different evaluation dates, `home` lags behind -/
+def exT2 : List Cell :=
+  [ { kind := .cumulative, ps := ⟨2020, 1, 1⟩, pe := ⟨2020, 12, 31⟩, ev := ⟨2020, 12, 31⟩, values := [("paid_loss", .int 1)], md := mdAuto },
+    { kind := .cumulative, ps := ⟨2020, 1, 1⟩, pe := ⟨2020, 12, 31⟩, ev := ⟨2021, 12, 31⟩, values := [("paid_loss", .int 2), ("reported_loss", .int 5)], md := mdAuto },
+    { kind := .cumulative, ps := ⟨2021, 1, 1⟩, pe := ⟨2021, 12, 31⟩, ev := ⟨2022, 6, 30⟩, values := [("paid_loss", .int 3)], md := mdAuto },
+    { kind := .cumulative, ps := ⟨2020, 1, 1⟩, pe := ⟨2020, 12, 31⟩, ev := ⟨2020, 12, 31⟩, values := [("paid_loss", .int 7)], md := mdHome },
+    { kind := .cumulative, ps := ⟨2020, 1, 1⟩, pe := ⟨2020, 12, 31⟩, ev := ⟨2021, 6, 30⟩, values := [("paid_loss", .int 8)], md := mdHome } ]
+
+theorem exT2_canon : Canon exT2 := by
+  refine ⟨?_, by decide⟩
+  simp only [exT2, List.pairwise_cons, List.mem_cons, List.not_mem_nil, or_false, forall_eq_or_imp,
+    forall_eq, List.Pairwise.nil, and_true, false_implies, implies_true]
+  refine ⟨⟨?_, ?_, ?_, ?_⟩, ⟨?_, ?_, ?_⟩, ⟨?_, ?_⟩, ?_⟩
+  all_goals first
+    | exact le_of_same_md rfl (by decide)
+    | exact le_of_md_lt mdAuto_lt_mdHome
+
+theorem exT2_range : ∀ c ∈ exT2, Date.min ≤ c.ps ∧ c.ps ≤ Date.max := by decide
+
+/-- slices of the two-slice triangle, concretely -/
+example : Triangle.slices exT2 = [(mdAuto, exT2.take 3), (mdHome, exT2.drop 3)] := by
+  rw [slices_eq exT2_canon]
+  decide +kernel
+
+example : slicesSpec exT2 (Triangle.slices exT2) = true := spec_slicesSpec exT2_canon
+
+/-- split by a detail key: the hypotheses are met; and the cell lacking `state` and the cell whose
+`state` is `None` get the same key -/
+example : ∃ gs, Triangle.split exT2 ["line", "state"] = .ok gs ∧
+    splitSpec exT2 ["line", "state"] gs = true := spec_splitSpec exT2_canon _
+
+example : splitKey ["state"] exT2[0] = splitKey ["state"] exT2[3] :=
+  splitKey_missing_eq_none "state" _ _ (by decide) (by decide)
+
+/-- right edge of the ragged two-slice triangle: exists, satisfies the Spec, and is ragged -/
+example : ∃ r, Triangle.rightEdge exT2 = .ok r ∧ rightEdgeSpec exT2 r = true := by
+  obtain ⟨r, hr⟩ := rightEdge_ok exT2_canon
+  exact ⟨r, hr, spec_rightEdgeSpec exT2_canon hr⟩
+
+example : Triangle.isRightEdgeRagged exT2 = .ok true := by
+  obtain ⟨b, hb, hiff⟩ := isRightEdgeRagged_iff exT2_canon
+  have : b = true := hiff.mpr ⟨exT2[1], by decide, exT2[2], by decide, rfl, by unfold latestIn; decide +kernel, by unfold latestIn; decide +kernel,
+    by decide⟩
+  rw [hb, this]
+
+/-- indexing with a `Metadata` component on the two-slice triangle -/
+example : Triangle.getItem exT2 (.slice none none) (.slice none (some ⟨2020, 12, 31⟩)) (.is mdHome) =
+    .ok (.inl [exT2[3]]) := by
+  rw [getItem_eq_filter exT2_canon exT2_range _ _ _ (by simp) (by simp)]
+  have : exT2.filter (itemKeep (.slice none none) (.slice none (some ⟨2020, 12, 31⟩)) (.is mdHome)) =
+      [exT2[3]] := by decide +kernel
+  rw [this]; rfl
+
+/-- complementary lag clips on it (fractional month bound) -/
+example : ∃ lo hi, Triangle.clipFull exT2 { minDev := some (5 / 2 : Rat), unit := some .month } = .ok lo ∧
+    Triangle.filterP exT2 (fun c => decide (c.devLag .month < (5 / 2 : Rat))) = .ok hi ∧
+    (lo ++ hi).Perm exT2 ∧ lo.length + hi.length = exT2.length :=
+  clip_minDev_complement exT2_canon _ _
 
 end Bermuda.Properties.C11
